@@ -153,9 +153,9 @@ CORNER_CASES = [
 ]
 
 
-def _stratify(pool):
+def _stratify(pool, offset=0):
     out = []
-    for i, c in enumerate(pool):
+    for i, c in enumerate(pool, start=offset):
         c = dict(c)
         c["axis"], c["direction"] = (i % 6) // 2, "+-"[i % 2]
         c["profile"] = ["cw", "pulse"][(i // 6) % 2]
@@ -170,7 +170,10 @@ def uniform_cases(ctx):
 
 def gaussian_cases(ctx):
     n = scaled(4 if ctx.tier == "quick" else (48 if ctx.lane == "f32" else 60), ctx)
-    out = _stratify(collect(gaussian_strategy(ctx), n, ctx.seed, salt=f"C13g/{ctx.lane}/{ctx.tier}"))
+    # the quick list is shorter than the 12 strata: start it at a seed / lane dependent stratum so that the two lanes
+    # of one run cover 8 consecutive strata (all six directions) and successive seeds walk through the rest
+    offset = 8 * ctx.seed + (4 if ctx.lane == "f64" else 0)
+    out = _stratify(collect(gaussian_strategy(ctx), n, ctx.seed, salt=f"C13g/{ctx.lane}/{ctx.tier}"), offset)
     if ctx.tier == "thorough" and ctx.lane == "f32":
         out = [dict(c) for c in CORNER_CASES] + out
     return out
